@@ -391,9 +391,13 @@ def c11_sites(repo_root, tier):
         eloop = [st for st in visit.body if isinstance(st, ast.For) and ast.unparse(st.iter) == "node.expressions()"]
         ok = len(eloop) == 1
         if ok:
-            b = ast.unparse(eloop[0]).replace("\n", " ")
             v = ast.unparse(eloop[0].target)
-            ok = f"_analyze_variables({v}, template_name, scope, globals, variables)" in b and f"_extract_filters({v}, template_name)" in b and "filters[name].append(span)" in b
+            # direct statements of the loop body (nothing guards them)
+            direct = [ast.unparse(st).replace("\n", " ") for st in eloop[0].body]
+            import re as _r
+            direct = [_r.sub(r"\s+", " ", d) for d in direct]
+            ok = (f"_analyze_variables({v}, template_name, scope, globals, variables)" in direct
+                  and f"for name, span in _extract_filters({v}, template_name): filters[name].append(span)" in direct)
         _ob(obs, f"liquid2.static_analysis:{fname}/site.every-expression-analysed", ok, "every expression of node.expressions() goes through _analyze_variables and _extract_filters unconditionally")
         # tags: reported under the token's own name with the token's own span, for every node that is not a bare block wrapper
         tag_if = next((st for st in visit.body if isinstance(st, ast.If) and "tags[" in ast.unparse(st)), None)
